@@ -8,7 +8,7 @@ from gen import discs
 from props import common
 
 LEAN_MODULE = 'Beeb.Props.C13'
-LEAVES = ['watford_start_sector', 'watford_sector2_in_use', 'get_dfs_sector_count', 'get_hdfs_sector_count', 'geometry_total_sectors']
+LEAVES = ['watford_start_sector', 'watford_sector2_in_use', 'get_dfs_sector_count', 'get_hdfs_sector_count', 'geometry_total_sectors', 'smells_like_hdfs']
 RULE = ('well-formed Acorn / Watford / Opus discs x geometries x container extensions (.ssd .sdd .dsd .ddd) x marker-imitating bodies (AA x8 at sector 2 inside a file '
         'that starts there, 18 at byte 3 of a body covering sector 16, catalogue-like sectors at side-2 offsets) and Watford discs with files at 0x102/0x202/0x302; '
         'the real identify_image/identify_file_system (in-process) and the Lean model are compared with the variant the markers define, and each disc is re-encoded '
